@@ -77,17 +77,18 @@ CHECKS["C10"] = dict(
 
 CHECKS["C13"] = dict(
     level="model_checking",
-    text="Simplify.tla transcribes simplifyCurve as a state machine (one action per loop iteration, the code's i/j/k/out and the "
-         "out[0:i] spare-capacity quirk, findIntersection and segMakesNotSimple in exact integer arithmetic); TLC checks termination "
-         "(liveness under weak fairness), bounded output, subsequence/endpoints/tolerance for every curve of the bounded lattice. "
+    text="Simplify.tla transcribes simplifyCurve as a state machine (one action per loop iteration, the code's i/j/k/out, the back-off of "
+         "candidate and closing chords, findIntersection and segMakesNotSimple in exact integer arithmetic); TLC checks termination "
+         "(liveness under weak fairness), bounded output, subsequence/endpoints/tolerance and preservation of simplicity for every "
+         "curve of the bounded lattice. "
          "TLC-enumerated curves, rings and multi-line strings plus seeded random simple walks are run through the real Simplify in a "
          "sandbox child (hang / runaway allocation become outcomes) and SimplifyTrace.tla validates each result against R1 "
          "(termination, order-preserving subsequence, endpoints, exact rational distance <= tol, simplicity preserved, input "
-         "untouched, members independent). Non-simple outputs are downgraded to the known finding only when they equal, vertex for "
-         "vertex, the output of the documented algorithm (the R2 machine run to completion inside TLC).",
+         "untouched, members independent); inputs are also presented at magnitudes 2^-10 .. 2^30 (exact scaling). Conformance of the "
+         "code to the transcription (the R2 machine run to completion inside TLC) is measured as drift and is 0.",
     design_ref="DESIGN.md section 5, C13",
     note="Trusted: TLC, the sandbox deadline (4 s, re-confirmed alone with 8 s). Integer lattice inputs <= 100; squared tolerances 0 or "
-         "= 3 mod 4 (no exact distance tie). Known finding C13-not-simple-documented-algorithm is suppressed by exact match with R2 only.",
+         "= 3 mod 4 (no exact distance tie). The former known finding (simplicity) is repaired (59c3263, 66548b8); nothing is suppressed.",
     technique="TLA+ transcription of the simplifier model-checked by TLC (safety + termination); TLC-enumerated and random cases run on "
               "the code in a sandbox; results validated by TLC against the exact-rational oracle")
 
